@@ -1,50 +1,145 @@
 import KinModel.Drv.Util
-import KinModel.Request
+import KinModel.RequestFlow
+import KinModel.Style
+import KinModel.Body
 open Lean
 namespace KinModel.Drv.C07
-open KinModel.Drv KinModel.Request
+open KinModel.Drv KinModel.RequestFlow
+open KinModel.Request (In Param Opts Part overridden skipQuery)
 
 def parseIn (s : String) : In :=
   match s with | "path" => .path | "query" => .query | "header" => .header | _ => .cookie
 def inStr : In → String | .path => "path" | .query => "query" | .header => "header" | .cookie => "cookie"
 
-def parseParam (j : Json) : Param := ⟨getStr j "name", parseIn (getStr j "in"), getBool j "ok"⟩
+/-- a parameter of the case: {name, in, required, sent, valid} (the bit `ok` is computed from the facts) -/
+def parseFacts (j : Json) : ParamFacts := ⟨getBool j "required", getBool j "sent", getBool j "valid"⟩
+def parseParam (j : Json) : Param := ⟨getStr j "name", parseIn (getStr j "in"), (parseFacts j).ok⟩
 def partStr : Part → String
   | .security => "security" | .body => "body" | .param p => s!"param:{inStr p.loc}:{p.name}"
 
-def parseReqs (js : List Json) : List Requirement := js.map (fun r => strs (asArr r))
+/-- a requirement: [{"s": scheme, "sc": [scopes…]}, …] -/
+def parseUse (j : Json) : SchemeUse := ⟨getStr j "s", strs (getArr j "sc")⟩
+def parseReqs (js : List Json) : List Requirement := js.map (fun r => (asArr r).map parseUse)
 
-/-- request: {opParams, pathParams, opSecurity (null | [[..]]), docSecurity, declared:[..], accepted:[..],
-    hasBody, bodyOK, excludeBody, excludeQuery, multi} -/
+def callKey (scheme : String) (scopes : List String) : String := scheme ++ "(" ++ ",".intercalate scopes ++ ")"
+
+def shapeStr : Res → String
+  | .ok => "nil" | .single _ => "single" | .multi _ => "multi" | .stuck => "stuck"
+
+def dupIn (l : List Param) : Bool :=
+  match l with
+  | [] => false
+  | p :: r => r.any (fun q => q.name = p.name && q.loc = p.loc) || dupIn r
+
+/-! ### the bits recomputed by the models of the neighbours (C05 parameter decision, C06 body verdict)
+
+The stub declarations of the Go runner — an integer schema with maximum 9 or 1 in the default style of the location
+against the text `5`; a JSON body `{"a":1}` against an object schema requiring `a` or `b` — are handed to
+`Style.validateParameter` and `Body.validateRequestBodyD`; the case's facts must give the same bit. -/
+
+def styleLoc : In → Style.Loc
+  | .path => .path | .query => .query | .header => .header | .cookie => .cookie
+
+def styleParam (j : Json) : Style.Param :=
+  let loc := styleLoc (parseIn (getStr j "in"))
+  let m := Style.defaultMethod loc
+  ⟨⟨loc, m.1, m.2⟩, (getStr j "name").toList, getBool j "required", false,
+   .leaf (.prim { t := .integer, max := some (if getBool j "valid" then 9 else 1) })⟩
+
+/-- what the request carries for the parameter `j`; `query` = the whole query of the request -/
+def styleReq (query : List (Style.Str × List Style.Str)) (j : Json) : Style.Req :=
+  let sent := getBool j "sent"
+  match parseIn (getStr j "in") with
+  | .path => { path := some ['5'], query := query }
+  | .query => { query := query }
+  | .header => { header := if sent then some [['5']] else none, query := query }
+  | .cookie => { cookie := if sent then some ['5'] else none, query := query }
+
+def insertQ (n : Style.Str) : List (Style.Str × List Style.Str) → List (Style.Str × List Style.Str)
+  | [] => [(n, [['5']])]
+  | kv :: r => if kv.1 = n then kv :: r else kv :: insertQ n r
+
+def wholeQuery (ps : List Json) : List (Style.Str × List Style.Str) :=
+  ps.foldl (fun q j => if getStr j "in" == "query" && getBool j "sent" then insertQ (getStr j "name").toList q else q) []
+
+def bodyByC06 (bf : BodyFacts) : Bool :=
+  let need := if bf.valid then "a" else "b"
+  let schema := Body.RS.leaf (some .object) false false false 0 none [] [need.toList] none none
+  let rb : Body.ReqBody := ⟨bf.required, [("application/json".toList, ⟨some schema, []⟩)]⟩
+  let ct := if bf.declaredType then "application/json" else "text/csv"
+  let b : Body.BodyIn :=
+    if bf.sent then { text := "{\"a\":1}".toList, json := some (.obj [("a".toList, .int 1)]), form := none, parts := none }
+    else { text := [], json := none, form := none, parts := none }
+  (Body.validateRequestBodyD Body.registry rb ct.toList b false true).isOk
+
+/-- request: {opParams (null | [..]), pathParams, opSecurity (null | [[..]]), docSecurity, declared:[..],
+    accepted:["scheme(scope,scope)", ..], authNil, body (null | {required, sent, ctOK, valid}),
+    excludeBody, excludeQuery, multi, …fields only the Go runner reads} -/
 def handle (j : Json) : Json :=
+  let bodyJ := getD j "body" Json.null
+  let hasBody := !(isNull j "body")
+  let bf : BodyFacts := ⟨getBool bodyJ "required", getBool bodyJ "sent", getBool bodyJ "ctOK", getBool bodyJ "valid"⟩
   let op : Op := {
-    opParams := (getArr j "opParams").map parseParam,
+    opParams := if isNull j "opParams" then none else some ((getArr j "opParams").map parseParam),
     pathParams := (getArr j "pathParams").map parseParam,
     opSecurity := if isNull j "opSecurity" then none else some (parseReqs (getArr j "opSecurity")),
     docSecurity := parseReqs (getArr j "docSecurity"),
-    hasBody := getBool j "hasBody", bodyOK := getBool j "bodyOK" }
+    hasBody := hasBody, bodyOK := bf.ok }
   let o : Opts := { excludeBody := getBool j "excludeBody", excludeQuery := getBool j "excludeQuery",
                     multiError := getBool j "multi" }
   let declared := strs (getArr j "declared")
   let accepted := strs (getArr j "accepted")
-  let d := fun s => declared.contains s
-  let a := fun s => accepted.contains s
-  let res := validateRequest o op d a
-  let parts := match res with | .ok => [] | .err ps => ps.map partStr
+  let env : Env := {
+    declared := fun s => declared.contains s,
+    auth := if getBool j "authNil" then none else some (fun s sc => accepted.contains (callKey s sc)) }
+  let res := validateRequest o op env
+  let log := authLog o op env
+  let allParams := op.pathParams ++ opList op
+  let allFacts := ((getArr j "pathParams") ++ (getArr j "opParams")).map parseFacts
+  let uses := (securityList op).flatten
+  let allJ := (getArr j "pathParams") ++ (getArr j "opParams")
+  let q := wholeQuery allJ
+  let composeAgree :=
+    allJ.all (fun pj => (Style.validateParameter (styleParam pj) (styleReq q pj) == .accept) == (parseFacts pj).ok) &&
+    (!hasBody || bodyByC06 bf == bf.ok)
+  let build := getD j "build" Json.null
   let branches :=
     (if op.opSecurity.isSome then ["sec.op"] else []) ++
     (if (securityList op).isEmpty then ["sec.empty"] else []) ++
     (if (securityList op).any (·.isEmpty) then ["sec.emptyreq"] else []) ++
-    (if op.pathParams.any (overridden op.opParams) then ["param.override"] else []) ++
-    (if o.excludeQuery && (op.pathParams ++ op.opParams).any (·.loc = In.query) then ["opt.exq"] else []) ++
+    (if uses.any (fun u => !u.scopes.isEmpty) then ["sec.scopes"] else []) ++
+    (if uses.any (fun u => uses.any (fun v => v.scheme = u.scheme && v.scopes ≠ u.scopes)) then ["sec.samescheme"] else []) ++
+    (if uses.any (fun u => !env.declared u.scheme) then ["sec.undeclared"] else []) ++
+    (if env.auth.isNone then ["sec.nilauth"] else []) ++
+    (if log.length > 1 then ["sec.calls>1"] else []) ++
+    (if op.opParams.isNone then ["param.nilop"] else []) ++
+    (if op.pathParams.any (overridden (opList op)) then ["param.override"] else []) ++
+    (if op.pathParams.any (fun p => (opList op).any (fun q => q.name = p.name && q.loc ≠ p.loc)) then ["param.samename-otherloc"] else []) ++
+    (if dupIn op.pathParams || dupIn (opList op) then ["param.dup"] else []) ++
+    (if allFacts.any (fun f => !f.sent && f.required) then ["param.absent-required"] else []) ++
+    (if allFacts.any (fun f => !f.sent && !f.required) then ["param.absent-optional"] else []) ++
+    (if o.excludeQuery && allParams.any (·.loc = In.query) then ["opt.exq"] else []) ++
     (if o.excludeBody && op.hasBody then ["opt.exb"] else []) ++
+    (if hasBody && !bf.sent then (if bf.required then ["body.absent-required"] else ["body.absent-optional"]) else []) ++
+    (if hasBody && bf.sent && !bf.declaredType then ["body.badct"] else []) ++
     (if o.multiError then ["multi"] else []) ++
-    (if (failing o op d a).length > 1 then ["fail.many"] else [])
+    (if (failing o op env).length > 1 then ["fail.many"] else []) ++
+    (if getStr build "req" == "httptest" then ["build.req.httptest"] else []) ++
+    (if getStr build "route" == "gorilla" then ["build.route.gorilla"] else []) ++
+    (if getStr build "route" == "legacy" then ["build.route.legacy"] else []) ++
+    (if getStr build "doc" == "loaded" then ["build.doc.loaded"] else []) ++
+    (if getBool j "authReadsBody" && !log.isEmpty then ["auth.readsbody"] else []) ++
+    (if getBool j "optionsNil" then ["opt.nil"] else []) ++
+    (if getStr j "undeclaredHow" != "" then ["sec.undeclared." ++ getStr j "undeclaredHow"] else []) ++
+    (if ((getArr j "pathParams") ++ (getArr j "opParams")).any (fun p => getBool p "ref") then ["param.ref"] else [])
   jobj [
-    ("model", jobj [("ok", Json.bool res.isOk), ("parts", jstrs parts), ("authLog", jstrs (authLog d a op))]),
-    ("spec", jobj [("accept", Json.bool (acceptB o op d a)),
-                   ("failing", jstrs ((failingSpec o op d a).map partStr))]),
-    ("excl", Json.arr #[]),
+    ("model", jobj [("ok", Json.bool res.isOk), ("shape", Json.str (shapeStr res)),
+                    ("parts", jstrs (res.parts.map partStr)),
+                    ("authLog", jstrs (log.map (fun c => callKey c.scheme c.scopes))),
+                    ("composeAgree", Json.bool composeAgree)]),
+    ("spec", jobj [("accept", Json.bool (acceptB o op env)),
+                   ("failing", jstrs ((failingSpec o op env).map partStr))]),
+    ("excl", jstrs (if exclNilAuthEmptyReq env op then ["NilAuthEmptyRequirement"] else [])),
     ("branches", jstrs branches)]
 
 end KinModel.Drv.C07
